@@ -1,0 +1,33 @@
+//go:build verif
+
+package vam
+
+import (
+	"github.com/vkngwrapper/arsenal/memutils/metadata"
+)
+
+// This file is only compiled with the `verif` build tag. It exposes unexported pieces of
+// vam to the verification harness under /verif. It adds code only; nothing here is reachable
+// from a default build.
+
+// VerifNewGranularityHandler returns vam's real buffer-image-granularity handler, initialised
+// for a block of the given size, as the interface memutils' block metadata consumes.
+func VerifNewGranularityHandler(bufferImageGranularity uint, blockSize int) metadata.GranularityCheck {
+	g := &blockBufferImageGranularity{bufferImageGranularity: bufferImageGranularity}
+	g.Init(blockSize)
+	return g
+}
+
+// VerifGranularityRegions returns (allocType, allocCount) for every granularity page tracked by
+// a handler created with VerifNewGranularityHandler.
+func VerifGranularityRegions(h metadata.GranularityCheck) (types []uint32, counts []uint16) {
+	g, ok := h.(*blockBufferImageGranularity)
+	if !ok {
+		return nil, nil
+	}
+	for _, r := range g.regionInfo {
+		types = append(types, uint32(r.allocType))
+		counts = append(counts, r.allocCount)
+	}
+	return types, counts
+}
